@@ -62,6 +62,7 @@ fn build(work: &Path, id: &str, spec: &str, grammar_json: &str, scanner: Option<
             let list = |v: &Vec<usize>| if v.is_empty() { "-".to_string() } else { v.iter().map(|r| r.to_string()).collect::<Vec<_>>().join(",") };
             writeln!(ops, "ginl {id} {}", list(&f.inl)).unwrap();
             writeln!(ops, "gextra {id} {}", list(&f.extras)).unwrap();
+            writeln!(ops, "gorig {id} {}", f.n_orig).unwrap();
             writeln!(ops, "gend {id} {}", f.roots.iter().map(|r| r.to_string()).collect::<Vec<_>>().join(",")).unwrap();
         }
         Err(e) => { writeln!(ops, "gskip {id} {}", e.replace(' ', "_")).unwrap(); }
@@ -372,6 +373,54 @@ fn random_grammar(rng: &mut Rng, name: &str) -> (String, Vec<&'static str>) {
     (serde_json::to_string(&g).unwrap(), feats)
 }
 
+/// Small grammars made of a CHAIN of unit rules over hidden rules with a recursive bottom, mostly declared top-down:
+/// the node-type information of the upper rules then needs several passes of the generator's fixed-point loop, and
+/// single quantities (total children, children without fields, one field) can settle in different passes — nothing
+/// else in such a small grammar keeps the loop alive.
+fn chain_grammar(rng: &mut Rng, name: &str) -> String {
+    let mut rules: Vec<(String, Value)> = Vec::new();
+    let n_top = rng.below(4);
+    let mut names: Vec<String> = (0..n_top).map(|i| format!("top{i}")).collect();
+    names.push("wrapper".into());
+    let hidden_mid = rng.chance(1, 3);
+    let below = if hidden_mid { "_m" } else { "_c" };
+    for (i, n) in names.iter().enumerate() {
+        let next = if i + 1 < names.len() { names[i + 1].clone() } else { below.to_string() };
+        let body = match rng.below(6) {
+            0 => seq(vec![lit(&format!("k{i}")), sym(&next)]),
+            1 => seq(vec![sym(&next), lit(&format!("e{i}"))]),
+            2 if i + 1 == names.len() => field("body", sym(&next)),
+            _ => sym(&next),
+        };
+        rules.push((n.clone(), body));
+    }
+    if hidden_mid { rules.push(("_m".into(), choice(vec![sym("_c"), seq(vec![lit("("), sym("_c"), lit(")")])]))); }
+    let base = |rng: &mut Rng| if rng.chance(1, 4) { field("item", sym("name")) } else { sym("name") };
+    let mut c_alts = vec![sym("_d")];
+    if rng.chance(3, 4) { let b = base(rng); c_alts.push(seq(vec![b, lit(";")])); }
+    if rng.chance(1, 3) { let b = base(rng); c_alts.push(seq(vec![lit("<"), b, lit(">")])); }
+    if rng.chance(1, 4) { let (b1, b2) = (base(rng), base(rng)); c_alts.push(seq(vec![lit("["), b1, b2, lit("]")])); }
+    if rng.chance(1, 2) { c_alts.rotate_left(1); }
+    rules.push(("_c".into(), choice(c_alts)));
+    let (b1, b2) = (base(rng), base(rng));
+    let rec_alt = match rng.below(4) {
+        0 => seq(vec![b2, sym("_d")]),
+        1 => seq(vec![sym("_d"), lit(","), b2]),
+        _ => seq(vec![sym("_d"), b2]),
+    };
+    let d_alts = if rng.chance(1, 2) { vec![b1, rec_alt] } else { vec![rec_alt, b1] };
+    rules.push(("_d".into(), choice(d_alts)));
+    // declared top-down, sometimes with the rules below the start rule shuffled
+    if rng.chance(1, 4) && rules.len() > 2 {
+        for i in (2..rules.len()).rev() { let j = 1 + rng.below(i); rules.swap(i, j); }
+    }
+    rules.push(("name".into(), pat("[a-z]+")));
+    let mut map = serde_json::Map::new();
+    for (k, v) in rules { map.insert(k, v); }
+    serde_json::to_string(&json!({"name": name, "rules": Value::Object(map), "extras": [pat("\\s")], "conflicts": [], "precedences": [],
+                                  "externals": [], "inline": [], "supertypes": []})).unwrap()
+}
+
 fn emit_docs(l: &Lang, rng: &mut Rng, n_docs: usize, sizes: &[usize], ops: &mut impl Write, list: &mut impl Write, case_no: &mut usize) {
     let gg = gen::GrammarGen::new(&l.grammar_json, l.samples.as_deref());
     for d in 0..n_docs {
@@ -473,6 +522,19 @@ fn main() {
                 writeln!(ops, "feat {name} {}", feats.join(",")).unwrap();
                 emit_docs(&l, &mut rng, docs_rnd, &sizes, &mut ops, &mut list, &mut case_no);
             }
+            Err(e) => { rejected += 1; writeln!(ops, "skip {name} {}", e.replace('\n', " ").chars().take(200).collect::<String>()).unwrap(); }
+        }
+    }
+    // chains of unit rules over hidden recursive rules (own random stream: the families above keep their grammars)
+    let mut crng = Rng::new(seed_from_env() ^ 0x5eed_c4a1);
+    let n_chain = if thorough { 160 } else { 48 };
+    for k in 0..n_chain {
+        let mut grng = crng.fork();
+        let name = format!("hc{}_{}", seed_from_env() % 100000, k);
+        let json = chain_grammar(&mut grng, &name);
+        let spec = format!("json:{}", hex(json.as_bytes()));
+        match build(&work, &name, &spec, &json, None, None, &mut ops, &mut list) {
+            Ok(l) => { rnd_built += 1; writeln!(ops, "feat {name} hidden-chain").unwrap(); emit_docs(&l, &mut crng, 4, &[6, 12, 30, 8], &mut ops, &mut list, &mut case_no); }
             Err(e) => { rejected += 1; writeln!(ops, "skip {name} {}", e.replace('\n', " ").chars().take(200).collect::<String>()).unwrap(); }
         }
     }
